@@ -17,6 +17,7 @@ from __future__ import annotations
 import json
 import logging
 import random
+import re
 
 from .. import core, par
 from ..flows import LogCapture, canon_flow, mem_reader, rename_uuids_by_first_occurrence, rows_to_csv
@@ -486,7 +487,7 @@ def check_case(case: dict, drv, rng: random.Random | None = None, perm=None, wan
     if not A.ok:
         info["status"] = "rejected"
         rc = real_class(A)
-        if case.get("kind") == "valid" and rc is not None and rc[0] in ("argDoublyDefined", "argMissing"):
+        if case.get("kind") == "valid" and rc is not None and rc[0] in ARG_KINDS + ("argProblem",):
             # by construction every required argument is given and every declared name is new: the property's
             # own words (positional binding, blank → default) say these arguments are fine
             problems.append(("correct template arguments are rejected (bulk and single rows alike)",
@@ -565,14 +566,44 @@ def check_case(case: dict, drv, rng: random.Random | None = None, perm=None, wan
 # ------------------------------------------------------------------ tie B2: parse_all_flows names / order / first error
 
 
+# The real code reports argument problems as CRITICAL records.  What they are about is read from ROBUST signals —
+# the level, and the argument the message names (the first double-quoted word) —; the KIND of problem is told from
+# the wording when the wording is recognised (several phrasings), and left open ("argProblem") when it is not, so
+# that a reworded message can neither break the tie nor turn into a false alarm (`same_error`).
+ARG_WORD = re.compile(r"\bargument", re.I)
+DOUBLY_WORDS = re.compile(r"doubly|twice|already|duplicate|redefin|more than once|clash", re.I)
+MISSING_WORDS = re.compile(r"required|not provided|missing|no value|mandatory|must be given|needs a value", re.I)
+ROWID_WORDS = re.compile(r"data_row_id", re.I)
+ARG_KINDS = ("argDoublyDefined", "argMissing")
+
+
+def classify_arg_message(m: str, assume_argument: bool = False):
+    """[kind, argument name] of a CRITICAL message about a template argument, else None"""
+    q = m.split('"')
+    if len(q) < 3 or not (assume_argument or ARG_WORD.search(q[0]) or ARG_WORD.search(m.replace(q[1], "", 1))):
+        return None
+    name, rest = q[1], " ".join(q[0::2])        # wording = the text outside the quoted values (a quoted context dump may say anything)
+    d, miss = bool(DOUBLY_WORDS.search(rest)), bool(MISSING_WORDS.search(rest))
+    kind = "argDoublyDefined" if d and not miss else "argMissing" if miss and not d else "argProblem"
+    return [kind, name]
+
+
+def same_error(real, model) -> bool:
+    """do the real code's classified error and the model's agree?  An argument problem whose wording is not
+    recognised agrees with either kind of argument problem about the same argument."""
+    if real == model:
+        return True
+    return (isinstance(real, list) and isinstance(model, list) and len(real) == 2 and len(model) == 2
+            and real[0] == "argProblem" and model[0] in ARG_KINDS and real[1] == model[1])
+
+
 def real_class(run: Run):
     """first error of a modelled kind, as the model names it; else ok"""
     for m in run.criticals:
-        if m.startswith('Template argument "') and "doubly defined" in m:
-            return ["argDoublyDefined", m.split('"')[1]]
-        if m.startswith('Required template argument "'):
-            return ["argMissing", m.split('"')[1]]
-        if m.startswith("For create_flow, if data_row_id is provided"):
+        c = classify_arg_message(m)
+        if c is not None:
+            return c
+        if ROWID_WORDS.search(m) and "create_flow" in m and '"' not in m:    # names the row type and the column at fault
             return ["rowIdWithoutSheet"]
     if run.exc_type == "KeyError":
         return ["KeyError", (run.exc_args or [""])[0]]
@@ -597,7 +628,7 @@ def tie_eval(run: Run, ans):
         elif e[0] == "rowNotFound":
             ok = rc == ["KeyError", e[2]]
         else:
-            ok = rc == e
+            ok = same_error(rc, e)
         return None if ok else {"model": ans, "real": rc, "input": run.model_input}
     if rc is not None:
         return {"model": "ok", "real": rc, "input": run.model_input}
@@ -653,13 +684,11 @@ def real_mapargs(parser, case):
         except Exception as e:  # noqa: BLE001
             res = None
             out["exc"] = ["exception", f"{type(e).__name__}: {e}"]
-    out["warn"] = any(m == "Too many arguments provided to template" for m in cap.warnings())
+    out["warn"] = bool(cap.warnings())      # the only warning of this function: surplus non-blank arguments
     for m in cap.criticals():
-        if "doubly defined" in m:
-            out["err"] = ["argDoublyDefined", m.split('"')[1]]
-            break
-        if m.startswith("Required template argument"):
-            out["err"] = ["argMissing", m.split('"')[1]]
+        c = classify_arg_message(m, assume_argument=True)   # every CRITICAL of this function is about an argument
+        if c is not None:
+            out["err"] = c
             break
     if "err" not in out and "exc" in out:
         out["err"] = ["sheetNotFound", out["exc"][1]] if out["exc"][0] == "KeyError" else out["exc"]
@@ -709,11 +738,15 @@ def mapargs_worker(args):
             raise core.Infra("driver: " + str(ans))
         real = real_mapargs(parser, c)
         model = model_mapargs_canon(ans)
-        k = "mapargs_" + (real["err"][0] if "err" in real else "ok")
+        # strata are about the INPUTS generated (which problem the case holds), so they are named by the model's
+        # verdict: the real code's wording must not decide whether the generator looks healthy
+        k = "mapargs_" + (model["err"][0] if "err" in model else "ok")
         stats[k] = stats.get(k, 0) + 1
-        if real["warn"]:
+        if model["warn"]:
             stats["mapargs_warn_too_many"] = stats.get("mapargs_warn_too_many", 0) + 1
         keys.append(json.dumps(c, sort_keys=True))
+        if "err" in real and "err" in model and real["warn"] == model["warn"] and same_error(real["err"], model["err"]):
+            continue
         if real != model:
             ties.append({"input": c, "real": real, "model": model})
     return {"ties": ties[:10], "n_ties": len(ties), "stats": stats, "keys": keys}
@@ -838,7 +871,8 @@ def known_blank_id(ck: core.Check):
     ck.count("known_stream_blank_id")
     names_bad = [f["name"] for f in bad.doc["flows"]] if bad.doc else None
     names_rep = [f["name"] for f in repaired.doc["flows"]] if repaired.doc else None
-    trigger_and_pattern = bad.exc is None and names_bad == ["tmpl - r1", "tmpl"] and BLANK_ID_WARNING in bad.warnings
+    # (the pattern is the flow names; that a warning accompanies it is kept, its wording is not part of it)
+    trigger_and_pattern = bad.exc is None and names_bad == ["tmpl - r1", "tmpl"] and bool(bad.warnings)
     counterfactual = repaired.ok and names_rep == ["tmpl - r1", "tmpl - r2"]
     if trigger_and_pattern and counterfactual and any(f["id"] == "F-C12-a" and f["status"] == "open" for f in ck.findings):
         ck.known("F-C12-a", "a data row with a blank ID is instantiated in bulk as a flow called `<name>` (not `<name> - `) with an EMPTY context: the data row is never looked up",
